@@ -86,8 +86,8 @@ def dec_obls(groups):
                              bounds={'window (BUFFER_SIZE)': bs, 'remaining input bytes': '0..%d' % maxin, 'head widths': 'all (ai 0..31)'}, functions=DEC_FUNCS))
     if 'string' in groups:
         for bs, maxin, tiers in str_cfg:
-            d = ['CDNS_VERIF_DECODER_BUFFER_SIZE=%d' % bs, 'DEC_MAXIN=%d' % maxin]
-            us = {r'read_to_buffer': bs + 1, r'ref_head': 9, r'__v_mem': 17}
+            d = ['CDNS_VERIF_DECODER_BUFFER_SIZE=%d' % bs, 'DEC_MAXIN=%d' % maxin, 'VS_STRCAP=%d' % (maxin + 1)]     # payload <= maxin bytes; an overflow of the model capacity is an assertion
+            us = {r'read_to_buffer': bs + 1, r'ref_head': 9, r'__v_mem': 17, r'string_op|read_string|St6string': 11}    # model string loops run to the capacity (8) with guards
             for h in ('bytestring', 'textstring'):
                 o.append(Obl('dec_%s_w%d_n%d' % (h, bs, maxin), 'dec.cpp', 'h_dec_' + h, unwind=maxin + 2, defines=d, tiers=tiers, unwindset=us, timeout=2400,
                              redirect=SKIP_REDIRECT, mem_gb=20,
@@ -183,7 +183,9 @@ PROPS['C19'] = {
     'obligations': [tbl_obl('copy_tbl_ctor', 'h_copy_tbl_ctor', 'BlockTable copy-constructed from a heap table that is then cleared/destroyed: lookups/adds on the copy never touch freed memory and agree with the values', timeout=1500),
                     tbl_obl('copy_tbl_assign', 'h_copy_tbl_assign', 'same for copy assignment', timeout=1500),
                     tbl_obl('copy_tbl_rr', 'h_copy_tbl_rr', 'same for RR keys (custom hash)', tiers=('thorough',), timeout=1500)] +
-                   [],
+                   [tbl_obl('copy_block_' + k, 'h_copy_block_' + k, 'whole CdnsBlock %s from a heap block holding two class/types, an address and a preamble time; the source is then mutated, cleared and destroyed: '
+                            'the copy keeps tables, values, preamble and de-duplicates against its own entries (may end without a verdict: reported inconclusive)' % d, tiers=('thorough',), timeout=3000)
+                    for k, d in (('ctor', 'copy-constructed'), ('assign', 'copy-assigned'), ('move', 'move-constructed'), ('moveassign', 'move-assigned'))],
     'explanation': 'The source object lives on the heap and is destroyed after the copy; CBMC\'s deallocated-object check fires iff anything in the copy still refers to it. '
                    'Decided at the level of BlockTable (where the reference-keyed index lives); CdnsBlock/CdnsBlockRead copy operations are member-wise assignments of nine such tables, '
                    'value-typed vectors, a value-keyed map and plain members (read in block.h) -- the whole-block copy is outside the solver bound (a 10 KB object: 745k symex steps, no verdict in 40 min).',
@@ -486,3 +488,50 @@ PROPS['C04'] = {
     'assumptions': ['model containers (stubs/) in place of libstdc++', 'CRC-32C intrinsics: mixing model (hash values are not the subject)'],
     'translation_validation': True,
 }
+
+
+# ---- block-level reader (harness/blkr.cpp): CdnsBlockRead::read and CdnsReader::read_block, nested reads replaced by their contracts ----------------
+BLKR_STUBBED = ['BlockPreamble', 'BlockStatistics', 'QueryResponse', 'MalformedMessage', 'AddressEventCount']
+BLKR_REDIRECT = tuple(['_ZN4CDNS%s4readERNS_11CdnsDecoderE=stubr_%s@cdns' % (_mangled(t), t) for t in BLKR_STUBBED] +
+                      ['_ZN4CDNS13CdnsBlockRead16read_blocktablesERNS_11CdnsDecoderE=stubr_blocktables@cdns',
+                       '_ZN4CDNS9Timestamp15add_time_offsetElm=stub_add_time_offset@cdns'])
+BLKR_FUNCS = ['CDNS::CdnsBlockRead::read(CdnsDecoder&, std::vector<BlockParameters>&) incl. its three array lambdas', 'CDNS::CdnsReader::read_block(bool&)', 'CDNS::CdnsDecoder::read_array (real)',
+              'contracts instead of: BlockPreamble/BlockStatistics/QueryResponse/MalformedMessage/AddressEventCount::read, CdnsBlockRead::read_blocktables, Timestamp::add_time_offset']
+BLKR_ASSUME = ['nested read() = "one item of that type; the value is the one that was written" (established per structure by the r_<X> obligations); read_blocktables not encoded (contract: consumes its item)',
+               'Timestamp::add_time_offset replaced by a data-flow contract (arithmetic: C17)', 'structure of the offered block concrete per obligation (shape, length forms); values and truncation point symbolic']
+
+
+def blkr_obl(shape, form, cut, tiers=('quick', 'thorough')):
+    what = {0: 'every member + one unknown member, 2 query/responses, 1 malformed message, 1 address event, parameter index 1 of 2', 1: 'preamble only, no parameter index',
+            2: 'parameter index 2 with 2 parameter sets in the file'}[shape]
+    return Obl('r_block_s%d_f%d%s' % (shape, form, '_cut' if cut else ''), 'blkr.cpp', 'noctor:h_r_block', unwind=24, defines=['BLKR_SHAPE=%d' % shape, 'BLK_FORM=%d' % form, 'BLKR_CUT=%d' % int(cut)],
+               tiers=tiers, timeout=900, redirect=BLKR_REDIRECT, opt='-O1 -fno-inline', mem_gb=16, unwindset={r'10read_arrayE': 4, r'13CdnsBlockRead4readE': 10, r'^h_r_block\.': 41}, extra=('--object-bits', '12'),
+               desc='CdnsBlockRead::read on a block offered as: %s; map %s, arrays %s; %s' % (what, ('definite', 'indefinite')[form & 1], ('definite', 'indefinite')[(form >> 1) & 1],
+                                                                                         'truncated after every number of tokens in turn: CdnsDecoderEnd' if cut else 'complete: members, order, parameter set, time conversion data flow'),
+               bounds={'block structure': 'concrete per obligation (shape %d)' % shape, 'records': '<= 2 per kind', 'values': 'symbolic, full width', 'truncation point': 'every token boundary (enumerated)' if cut else 'none'},
+               functions=BLKR_FUNCS)
+
+
+def rdr_obl(offer, cutat=0):
+    what = {0: 'a complete minimal block', 1: 'the break closing the blocks array', 2: 'nothing (end of input)', 3: 'a block truncated after %d of its 6 tokens' % cutat}[offer]
+    return Obl('reader_block_o%d%s' % (offer, '_c%d' % cutat if offer == 3 else ''), 'blkr.cpp', 'noctor:h_reader_block', unwind=24,
+               defines=['BLKR_WITH_READER=1', 'BLKR_OFFER=%d' % offer, 'BLKR_SHAPE=1'] + (['BLKR_CUTAT=%d' % cutat] if offer == 3 else []), timeout=900,
+               redirect=BLKR_REDIRECT, opt='-O1 -fno-inline', mem_gb=16, unwindset={r'10read_arrayE': 4, r'13CdnsBlockRead4readE': 10}, extra=('--object-bits', '12'),
+               desc='CdnsReader::read_block from an arbitrary reader state (blocks read/count symbolic, definite or indefinite blocks array), offered: %s: eof exactly at the end, '
+                    'CdnsDecoderEnd for truncated input, the block counter counts complete blocks only' % what,
+               bounds={'reader state': 'symbolic counters, both array forms', 'offered input': what}, functions=BLKR_FUNCS)
+
+
+BLKR_QUICK = [blkr_obl(0, 0, False), blkr_obl(0, 3, False), blkr_obl(0, 0, True), blkr_obl(0, 3, True), blkr_obl(1, 0, False), blkr_obl(2, 0, False)]
+BLKR_READER = [rdr_obl(k) for k in range(3)] + [rdr_obl(3, c) for c in (1, 3, 5)]
+
+_byname = {o.name: o for o in BLKR_QUICK + BLKR_READER}
+PROPS['C05']['obligations'] = PROPS['C05']['obligations'] + [_byname[n] for n in ('r_block_s0_f0_cut', 'r_block_s0_f3_cut', 'reader_block_o0', 'reader_block_o1', 'reader_block_o2', 'reader_block_o3_c1', 'reader_block_o3_c3', 'reader_block_o3_c5')]
+PROPS['C05']['explanation'] += (' Block / file level (blkr.cpp): CdnsBlockRead::read on a block truncated after every number of tokens in turn propagates CdnsDecoderEnd; CdnsReader::read_block from an arbitrary reader state: '
+                                'eof exactly at the closing break / after the declared number of blocks, CdnsDecoderEnd for input ending before or inside a block, the block counter counts complete blocks only. '
+                                'Nested item reads are contracts here (their own truncation behaviour: the r_<X> obligations with a symbolic cut).')
+PROPS['C05']['assumptions'] = list(PROPS['C05'].get('assumptions', [])) + BLKR_ASSUME
+PROPS['C01']['obligations'] = PROPS['C01']['obligations'] + [_byname[n] for n in ('r_block_s0_f0', 'r_block_s0_f3', 'r_block_s1_f0', 'reader_block_o0')]
+PROPS['C01']['explanation'] += ' Reader side of a whole block: r_block_* (CdnsBlockRead::read with nested reads as contracts: members, record order, parameter set, time conversion data flow), reader_block_o0 (CdnsReader::read_block).'
+PROPS['C08']['obligations'] = PROPS['C08']['obligations'] + [_byname[n] for n in ('r_block_s0_f0', 'r_block_s0_f3')]
+PROPS['C03']['obligations'] = PROPS['C03']['obligations'] + [_byname[n] for n in ('r_block_s2_f0', 'r_block_s0_f0_cut')]
